@@ -410,6 +410,8 @@ class HistogramND(HistogramBase):
         if weights is not None:
             # TODO: Check for weights size?
             self._coerce_dtype(weights.dtype)
+        if values_array.shape[0] == 0:
+            return  # An empty batch (or only NaN rows): nothing to add, no bins to create
         for i, binning in enumerate(self._binnings):
             if binning.is_adaptive():
                 bin_map = binning.force_bin_existence(
